@@ -7,7 +7,7 @@ import sys, os, json, subprocess, time
 VERIF = "/verif"
 sid = sys.argv[1]
 props = sys.argv[2:] or ["C%02d" % i for i in range(1, 21)]
-sdir = os.path.join(VERIF, "seeded", sid)
+sdir = os.path.join(VERIF, os.environ.get("SEED_BASE", "seeded"), sid)
 patch = os.path.join(sdir, "patch.diff")
 import hashlib, glob
 def norm(path):
